@@ -237,6 +237,21 @@ def Tbl.update (t : Tbl) (p : VPath) (wd : Bool) : Tbl :=
    if p.nlri ∈ t.nlris then t.nlris else p.nlri :: t.nlris,
    updateIdx t.idx oldL r.1 p wd r.2⟩
 
+/-- table.go Table.Info with a VRF option (what GetTable TABLE_TYPE_VRF reports): (NumDestination,
+    NumPath) — per destination the paths that can be imported are counted, a destination counts
+    when it has one -/
+def vrfInfo (t : Tbl) (vr : Vrf) : Nat × Nat :=
+  let ls := t.nlris.map (fun n => ((t.dest n).filter (fun p => canImport vr p.ecs)).length)
+  ((ls.filter (fun x => x != 0)).length, ls.sum)
+
+/-- table.go deletePathsByVrf (TableManager.DeleteVrf): per destination the first locally originated
+    path under the VRF's RD, whatever its rank; returned as withdrawals -/
+def delVrfPaths (t : Tbl) (vr : Vrf) : List VPath :=
+  t.nlris.filterMap (fun n => (t.dest n).find? (fun p => p.src == 0 && p.rd == vr.rd))
+
+/-- server.go DeleteVrf: propagateUpdate of those withdrawals -/
+def Tbl.withdrawAll (t : Tbl) (ps : List VPath) : Tbl := ps.foldl (fun t p => t.update p true) t
+
 /-- GetBestPath of a destination (no route-server filter, next hops valid) -/
 def Tbl.best (t : Tbl) (n : Nat × Nat) : Option VPath := (t.dest n).head?
 
